@@ -551,9 +551,13 @@ class SymInt:
     __index__ = __int__
 
     def __str__(self):
+        if engine().format_mode == 'placeholder':
+            return '<sym-int>'
         return str(int(self))
 
     def __format__(self, spec):
+        if engine().format_mode == 'placeholder':
+            return '<sym-int>'
         return format(int(self), spec)
 
     def __float__(self):
@@ -991,6 +995,9 @@ class Engine:
         # 'const': symbolic ints hash alike (symbolic coordinates as dict keys, equality forks);
         # 'realise': hashing an int enumerates its feasible values (lookup in concrete-key dicts)
         self.hash_mode = 'const'
+        # 'realise': str()/format() of a symbolic int enumerates its values (the result is data);
+        # 'placeholder': formatting is logging only and yields a fixed token
+        self.format_mode = 'realise'
         self.model = None
         # (file, line) sites where hashing a symbolic int must realise it (lookup in a dict with
         # concrete keys); learnt automatically from KeyErrors raised with a symbolic key
